@@ -268,7 +268,14 @@ def load_known():
     return json.load(open(p)).get("findings", [])
 
 
+RUN_INFO = {}
+
+
 def write_replay(prop, payload):
+    if isinstance(payload, dict):
+        payload = dict(payload)
+        for k_, v_ in RUN_INFO.items():
+            payload.setdefault(k_, v_)
     d = os.path.join(VERIF, "replays", prop)
     os.makedirs(d, exist_ok=True)
     s = json.dumps(payload, indent=1, sort_keys=True)
